@@ -689,16 +689,18 @@ META = {
                 "(comments, strings, block strings and descriptions holding 2/3/4-byte scalars, U+000B, U+000C, U+0085, U+2028, U+2029, BOM, lone CR, CRLF), optionally damaged "
                 "(identifier replaced / token mutation) so that diagnostics of every stage exist. Per document: explicit visitor over ast::Document, Schema (component maps) and "
                 "ExecutableDocument: (a) location present, file id in the source map (the file itself for the AST), range inside the file on char boundaries, (b) name text == source slice; "
-                "(c) get_line_column at EVERY char-boundary offset vs RefLineCol; (d) line_column_range().start and to_json().locations of every diagnostic with a location vs RefLineCol. "
+                "(c) get_line_column at EVERY char-boundary offset vs RefLineCol; (d) line_column_range().start and to_json().locations of every diagnostic with a location vs RefLineCol; "
+                "(e) SourceSpan::line_column_range of every visited location and of every diagnostic: start == RefLineCol(offset), end == RefLineCol(end_offset) or the position of the span's last scalar value. "
                 "evaluations = documents; distinct_nontrivial = distinct documents containing a multibyte scalar, U+000B, U+000C or CR",
         "assumptions": COMMON_ASSUMPTIONS + [
-            "the offset between the CR and LF of a CRLF and offsets inside a scalar are unspecified and not judged; only the start of a diagnostic's range is compared (whether the end is inclusive is not stated)",
+            "the offset between the CR and LF of a CRLF and offsets inside a scalar are unspecified and not judged; the end of a range passes under either reading of the documentation's 'inclusive' (the exclusive end offset converted, as the code does, or the position of the last scalar value)",
             "nodes that are synthesised rather than parsed are not visited: the implicit schema definition, SelectionSet.ty and Field.definition (taken from the schema)",
             "(a)/(b) presuppose a lossless syntax tree (C02): in a document whose tree dropped a token all failures are reported under the single signature ab|locations-shifted|syntax-tree-lost-a-token(C02)",
             "documents on which parsing or validation panics are skipped here (C01/C21)",
         ],
         "floors": {"any": {
             "validity": ["valid", "invalid"],
+            "location_range": ["spans several lines", "spans a lone CR and no LF"],
             "source": ["base_document", "corpus", "hostile_base_document", "hostile_corpus_document", "hostile_damaged_names", "hostile_token_mutant"],
             "text_feature": ["multibyte", "U+000B", "U+000C", "U+0085", "U+2028", "U+2029", "CR", "CRLF", "line-terminator-at-end-of-input"],
             "diagnostic_stage": ["parse", "schema-build", "schema-validation", "executable-build", "executable-validation"],
